@@ -332,6 +332,111 @@ def run_cases(ctx, cases, compare=True, ballots_per_case=2):
     ctx.extra["violations_per_call"] = {";".join(f"{a}={b}" for a, b in k): n for k, n in per_sig.items()}
 
 
+def argtype_stream(ctx, n):
+    """the queried collection as every argument type a caller may use (tuple, set, frozenset, dict keys, generator, iterator, map,
+    filter, BudgetAllocation): `sat(collection)` must be the value of the same set given as a list (which the main stream judges
+    against the documented formula).  Round 7 (C10-r7B): a rewrite that traverses the argument twice"""
+    for _ in range(n):
+        case = gen_case(ctx.rng)
+        ctx.violations.extend(argtype_case(case, ctx)[:PER_SIG_CAP])
+
+
+def argtype_case(case, ctx=None):
+    from pabutools.rules import BudgetAllocation
+
+    out = []
+    for _ in range(1):
+        if not case.projects or not case.ballots:
+            continue
+        r = random.Random(case.seed ^ 0xA51)
+        multi = bool(case.cfg.get("multi"))
+        inst, projs = core.build_instance(case)
+        prof = core.build_profile(case, inst, projs, multi=multi)
+        ballots = list(prof)
+        ballot = r.choice(ballots)
+        for measure in [m for m in EXACT[case.btype] + FLOAT.get(case.btype, []) if m not in MIP]:
+            S = r.sample(case.names, r.randint(0, len(case.names)))
+            try:
+                want = core.sat_class(measure)(inst, prof, ballot).sat([projs[x] for x in S])
+            except Exception:  # noqa: BLE001 - judged by the main stream
+                continue
+            for label, mk in core.collection_variants([projs[x] for x in S], alloc_cls=BudgetAllocation):
+                if ctx is not None:
+                    ctx.evaluations += 1
+                    ctx.count("argtype", label)
+                try:
+                    got = core.sat_class(measure)(inst, prof, ballot).sat(mk())
+                except Exception as e:  # noqa: BLE001
+                    out.append(viol(f"sat({S} given as {label}) raised {type(e).__name__}: {e}; as a list it is {want}", case, measure, 0,
+                                               {"kind": "argtype", "argtype": label, "err": core.err_enum(e)}))
+                    continue
+                if got != want:
+                    out.append(viol(f"sat({S} given as {label}) = {got}, as a list {want}", case, measure, 0, {"kind": "argtype", "argtype": label},
+                                    impl=str(got), expected=str(want)))
+    return out
+
+
+def ordinal_edit_stream(ctx, n):
+    """Borda scores follow the ranking as it IS: an ordinal ballot is edited in place through every operation the class offers
+    (`append`, `del b[p]`, `pop`, `|=`, `update`), with position look-ups in between, and after every step a FRESH measure must give
+    `len(ballot) - position - 1` to every ranked project and 0 to the others.  Round 7 (C10-r7A, C18-r7A): positions cached on the
+    ballot and not refreshed by the C-level dictionary operations"""
+    for _ in range(n):
+        v = ordinal_history(ctx.rng.getrandbits(48), ctx)
+        if v is not None:
+            ctx.violations.append(v)
+
+
+def ordinal_history(seed, ctx=None):
+    """one edit history of one ordinal ballot (a function of `seed`); returns a violation or None"""
+    from pabutools.election import Additive_Borda_Sat, Instance, OrdinalBallot, OrdinalProfile, Project
+
+    for _ in range(1):
+        r = random.Random(seed)
+        m = r.randint(2, 7)
+        ps = [Project("p%d" % i, r.randint(1, 4)) for i in range(m)]
+        inst = Instance(ps, budget_limit=r.randint(1, 8))
+        b = OrdinalBallot(r.sample(ps, r.randint(1, m)))
+        prof = OrdinalProfile([b], instance=inst)
+        hist = ["start " + " ".join(p.name for p in b)]
+        for step in range(r.randint(2, 6)):
+            if r.random() < 0.7 and len(b) > 0:
+                q = r.choice(list(b))
+                b.position(q)
+                b.index(q)
+                Additive_Borda_Sat(inst, prof, b).sat_project(q)
+            absent = [p for p in ps if p not in b]
+            op = r.choice(["append", "del", "pop", "ior", "update"])
+            try:
+                if op == "append" and absent:
+                    q = r.choice(absent); b.append(q); hist.append("append " + q.name)
+                elif op == "del" and len(b) > 1:
+                    q = r.choice(list(b)); del b[q]; hist.append("del " + q.name)
+                elif op == "pop" and len(b) > 1:
+                    q = r.choice(list(b)); b.pop(q); hist.append("pop " + q.name)
+                elif op == "ior" and absent:
+                    qs = r.sample(absent, r.randint(1, len(absent))); b |= OrdinalBallot(qs); hist.append("|= " + " ".join(q.name for q in qs))
+                elif op == "update" and absent:
+                    qs = r.sample(absent, r.randint(1, len(absent))); b.update(OrdinalBallot(qs)); hist.append("update " + " ".join(q.name for q in qs))
+                else:
+                    continue
+                ranking = list(b)
+                if ctx is not None:
+                    ctx.evaluations += 1
+                    ctx.count("ordinal_edit", op)
+                sat = Additive_Borda_Sat(inst, prof, b)
+                got = [sat.sat_project(p) for p in ps]
+                want = [len(ranking) - ranking.index(p) - 1 if p in ranking else 0 for p in ps]
+                pos = [b.position(p) for p in ranking]
+            except Exception as e:  # noqa: BLE001
+                return {"what": f"ordinal ballot history {hist}: {type(e).__name__}: {e}", "case": None, "cfg": {"history": hist, "seed": seed},
+                        "sig": {"kind": "ordinal_edit", "err": core.err_enum(e)}}
+            if got != want or pos != list(range(len(ranking))):
+                return {"what": f"after the history {hist} the ranking is {[p.name for p in ranking]} but Borda scores are {got} (formula: {want}), "
+                                f"positions {pos}", "case": None, "cfg": {"history": hist, "seed": seed}, "sig": {"kind": "ordinal_edit", "op": op}}
+    return None
+
+
 def cases_stream(ctx, n):
     for c in corner_cases():
         yield c
@@ -342,14 +447,25 @@ def cases_stream(ctx, n):
 def run(ctx):
     ctx.rule = RULE
     run_cases(ctx, cases_stream(ctx, ctx.scale(160, 1600)))
+    argtype_stream(ctx, ctx.scale(60, 600))
+    ordinal_edit_stream(ctx, ctx.scale(300, 3000))
 
 
 def search(ctx, disagreements):
     ctx.rule = RULE
     run_cases(ctx, cases_stream(ctx, 2500), compare=False)
+    argtype_stream(ctx, 400)
+    ordinal_edit_stream(ctx, 3000)
 
 
 def replay(payload):
+    kind = payload.get("sig", {}).get("kind")
+    if kind == "ordinal_edit":
+        v = ordinal_history(payload["cfg"]["seed"])
+        return (False, "still fails: " + v["what"]) if v else (True, "property holds on the replayed ordinal-ballot history")
+    if kind == "argtype":
+        vs = argtype_case(Case.from_json(payload["case"]))
+        return (False, "still fails: " + vs[0]["what"]) if vs else (True, "property holds on the replayed election for every argument type")
     case = Case.from_json(payload["case"])
     measure = payload["cfg"]["measure"]
     index = payload["cfg"]["index"]
